@@ -491,6 +491,77 @@ def recognise_global_memo(model: Model, func: str) -> Optional[List[str]]:
             problems.append(f"hit test `{core.src(t)}` is not an exact comparison of the key")
     params = [p for p in fi.params if p != "self"]
     skip = {id(x) for x in ast.walk(key_assign)}
+    # which components of the parameters the key and the remembered values are computed from, through the function's local
+    # variables (flow-insensitive closure over its assignments; `a, b = p["x"], p["y"]` element by element)
+    local_deps: Dict[str, Set[Tuple[str, object]]] = {}
+
+    def expr_deps(e: ast.AST) -> Set[Tuple[str, object]]:
+        out: Set[Tuple[str, object]] = set()
+        par: Dict[int, ast.AST] = {}
+        for pn in ast.walk(e):
+            for c in ast.iter_child_nodes(pn):
+                par[id(c)] = pn
+        for x in ast.walk(e):
+            if isinstance(x, ast.Name) and isinstance(x.ctx, ast.Load):
+                if x.id in params:
+                    pr_ = par.get(id(x))
+                    if isinstance(pr_, ast.Subscript) and pr_.value is x and isinstance(pr_.slice, ast.Constant):
+                        out.add((x.id, pr_.slice.value))
+                    elif isinstance(pr_, ast.Attribute) and pr_.value is x:
+                        out.add((x.id, pr_.attr))
+                    else:
+                        out.add((x.id, WHOLE))
+                out |= local_deps.get(x.id, set())
+        return out
+    changed_ = True
+    rounds_ = 0
+    while changed_ and rounds_ < 10:
+        changed_, rounds_ = False, rounds_ + 1
+        for n in ast.walk(fn):
+            pairs_ = []
+            if isinstance(n, ast.Assign):
+                for t in n.targets:
+                    if isinstance(t, ast.Tuple) and isinstance(n.value, ast.Tuple) and len(t.elts) == len(n.value.elts):
+                        pairs_.extend(zip(t.elts, n.value.elts))
+                    else:
+                        pairs_.append((t, n.value))
+            elif isinstance(n, ast.AugAssign):
+                pairs_.append((n.target, n.value))
+            elif isinstance(n, ast.AnnAssign) and n.value is not None:
+                pairs_.append((n.target, n.value))
+            for t, v in pairs_:
+                d_ = expr_deps(v)
+                for x in ast.walk(t):
+                    if isinstance(x, ast.Name) and x.id not in globs and x.id not in params:
+                        cur_ = local_deps.setdefault(x.id, set())
+                        if not d_ <= cur_:
+                            cur_ |= d_
+                            changed_ = True
+    key_deps = expr_deps(key_assign.value)
+    value_deps: Set[Tuple[str, object]] = set()
+    n_value_stores = 0
+    for n in ast.walk(fn):
+        if isinstance(n, ast.Assign) and any(isinstance(t, ast.Name) and t.id in globs for t in n.targets):
+            if isinstance(n.value, ast.Name) and n.value.id == key_name:
+                continue
+            n_value_stores += 1
+            value_deps |= expr_deps(n.value)
+    through_locals = any(isinstance(x, ast.Name) and x.id in local_deps for x in ast.walk(key_assign.value))
+    if through_locals and n_value_stores:
+        # the key is built from local variables: judge by what the key and the stored values are computed from
+        for prm in params:
+            kd = {f for q, f in key_deps if q == prm}
+            vd = {f for q, f in value_deps if q == prm}
+            if WHOLE in kd or not vd:
+                continue
+            if WHOLE in vd:
+                problems.append(f"UNDECIDED: how the remembered value depends on `{prm}` is not resolved to components")
+                continue
+            missing = {u for u in vd if u not in kd}
+            if missing:
+                problems.append(f"the remembered value is computed from {prm}[{', '.join(repr(m) for m in sorted(missing, key=repr))}], which the key "
+                                f"`{core.src(key_assign.value)}` does not contain")
+        return problems
     for prm in params:
         key_fields: Set[object] = set()
         parents: Dict[int, ast.AST] = {}
